@@ -260,6 +260,12 @@ def apply_model(tree, b):
         raise HarnessError(b)
 
 
+def marker_refused(b, err):
+    """The op carries the reserved deletion-marker value and was refused loudly for that reason (documented IH5 behaviour)."""
+    v = b.get("v")
+    return isinstance(v, dict) and v.get("t") in ("void", "void0") and v.get("v") == "7f" and "forbidden" in (err or "")
+
+
 def bound_is_generated(b):
     """Ops outside the property's domain are skipped (not executed anywhere)."""
     if b["op"] == "move" and (b["dst_abs"] == b["src_abs"] or b["dst_abs"].startswith(b["src_abs"] + "/")):
@@ -583,7 +589,6 @@ class Session:
                 ok_model = True
             except OpFails:
                 ok_model = False
-            marker = isinstance(b.get("v"), dict) and b["v"].get("t") in ("void", "void0") and b["v"].get("v") == "7f"
             nnodes = len(before.paths()) + 5
             err = None
             try:
@@ -600,7 +605,7 @@ class Session:
             out.n_ops += 1
             out.bound.append(b)
             k = self.cidx()
-            if marker and ok_model and not ok_real and "forbidden" in (err or ""):
+            if ok_model and not ok_real and marker_refused(b, err):
                 # the reserved deletion-marker value: refusing it loudly is the documented IH5 behaviour
                 self.tree = before
                 ok_model = False
